@@ -485,6 +485,8 @@ impl<'source> CodeGenerator<'source> {
                     self.compile_assignment(alias.as_ref().unwrap_or(name));
                 }
                 self.add(Instruction::EndCapture);
+                // the (discarded) output of the imported template is not used
+                self.add(Instruction::DiscardTop);
             }
             #[cfg(feature = "multi_template")]
             ast::Stmt::Extends(extends) => {
@@ -616,6 +618,8 @@ impl<'source> CodeGenerator<'source> {
 
     fn compile_do(&mut self, do_tag: &ast::Spanned<ast::Do<'source>>) {
         self.compile_call(&do_tag.call, None);
+        // the result of the call is not used
+        self.add(Instruction::DiscardTop);
     }
 
     fn compile_if_stmt(&mut self, if_cond: &ast::Spanned<ast::IfCond<'source>>) {
